@@ -40,9 +40,12 @@ TEXT_MODES = {
     "raw": ["--no-gitconfig", "--raw"],
     "rs": gitskin.RS_ARGS,
     "maxlen60": ["--no-gitconfig", "--max-line-length", "60"],
+    "maxlen0": ["--no-gitconfig", "--max-line-length", "0"],                 # 0 = never truncate
+    "sbs-unlimited-wrap": ["--no-gitconfig", "--side-by-side", "--wrap-max-lines", "unlimited", "--width", "80"],
     "hyperlinks+commit-format": ["--no-gitconfig", "--hyperlinks", "--hyperlinks-commit-link-format", "https://example.org/c/{commit}"],
 }
-COMMIT_RAW_MODES = {"defaults", "navigate+hyperlinks", "hyperlinks+commit-format", "maxlen60", "relative-paths+tabs2"}   # commit-style raw
+COMMIT_RAW_MODES = {"defaults", "navigate+hyperlinks", "hyperlinks+commit-format", "maxlen60", "relative-paths+tabs2", "maxlen0",
+                    "sbs-unlimited-wrap"}   # commit-style raw
 
 
 def rainbow(r2, n):
